@@ -13,6 +13,7 @@ assignment under the object's own dialect … never fail because of the dialect 
 spellings are further down (`roundtrip_*`, `spellings`).
 -/
 import NetaddrVerif.Lemmas.C08L
+import NetaddrVerif.Lemmas.C08LText
 import NetaddrVerif.Props.C15
 namespace NV.C08
 open NV NV.Eui NV.Codec NV.Gen
@@ -26,8 +27,8 @@ theorem eui64_spec (v : Nat) :
     (v < 2 ^ 64 → eui64 64 v = .ok (64, v)) := by
   have key : ∀ n : Nat, n ≤ 2 ^ 64 - 1 → ofAny (.int (n : Int)) (some 64) = .ok (64, n) := by
     intro n h
-    have hm : maxInt 64 = 2 ^ 64 - 1 := by decide
-    have hr : (n : Int) ≤ ((maxInt 64 : Nat) : Int) := by rw [hm]; exact_mod_cast h
+    have hm : Eui.maxInt 64 = 2 ^ 64 - 1 := by decide
+    have hr : (n : Int) ≤ ((Eui.maxInt 64 : Nat) : Int) := by rw [hm]; exact_mod_cast h
     unfold ofAny
     simp only []
     rw [if_pos (by decide)]
@@ -379,5 +380,217 @@ theorem setItem_reject (v : Nat) (d : Dialect) (idx value : Int)
 
 example : setItem 0x001b774954fd ⟨"mac_cisco", 16, 3, ['.'], 4, false⟩ 0 0xffff = .ok 0xffff774954fd := by rfl
 example : setItem 0x001b774954fd ⟨"mac_cisco", 16, 3, ['.'], 4, false⟩ 0 0x10000 = .error .index := by rfl
+
+/-! ## text: accepted spellings and the print / parse round trip -/
+
+private def padOk (padOf : Nat → Option Nat) (width : Nat) (f : MacFmt) : Bool :=
+  match padOf f.groups with
+  | some p => decide (f.hi ≤ p) && decide (1 ≤ p) && decide (4 * p * f.groups = width)
+  | none => false
+
+private theorem padOk48 : ∀ f ∈ macFormats, padOk pad48 48 f = true := by decide
+private theorem padOk64 : ∀ f ∈ eui64Formats, padOk pad64 64 f = true := by decide
+
+/-- no EUI-48 pattern has the group count and digit counts of an EUI-64 pattern -/
+private theorem cross : ∀ g ∈ macFormats, ∀ f ∈ eui64Formats, g.groups = f.groups → g.hi < f.lo ∨ f.hi < g.lo := by
+  decide
+
+private theorem padOk_elim {padOf width f} (h : padOk padOf width f = true) :
+    ∃ p, padOf f.groups = some p ∧ f.hi ≤ p ∧ 1 ≤ p ∧ 4 * p * f.groups = width := by
+  unfold padOk at h
+  cases hp : padOf f.groups with
+  | none => rw [hp] at h; cases h
+  | some p =>
+    rw [hp] at h
+    simp only [Bool.and_eq_true, decide_eq_true_eq] at h
+    exact ⟨p, rfl, h.1.1, h.1.2, h.2⟩
+
+private theorem ofAny_some48 (a : AddrArg) : ofAny a (some 48) = setExplicit 48 a := by
+  unfold ofAny; simp only []; rw [if_pos (by decide)]; rfl
+
+private theorem ofAny_some64 (a : AddrArg) : ofAny a (some 64) = setExplicit 64 a := by
+  unfold ofAny; simp only []; rw [if_pos (by decide)]; rfl
+
+private theorem setExplicit_int (ver n : Nat) :
+    setExplicit ver (.int n) = if n ≤ Eui.maxInt ver then .ok (ver, n) else .error .addrFormat := by
+  unfold setExplicit
+  simp only []
+  by_cases h : n ≤ Eui.maxInt ver
+  · have h' : (n : Int) ≤ ((Eui.maxInt ver : Nat) : Int) := by exact_mod_cast h
+    rw [if_pos ⟨Int.natCast_nonneg _, h'⟩, if_pos h, Int.toNat_natCast]
+  · have h' : ¬ ((0 : Int) ≤ (n : Int) ∧ (n : Int) ≤ ((Eui.maxInt ver : Nat) : Int)) := by
+      intro ⟨_, x⟩; exact h (by exact_mod_cast x)
+    rw [if_neg h', if_neg h]
+
+/-- **every accepted EUI-48 spelling**: hex tokens joined by one separator (or one bare token)
+    that fit a row of `RE_MAC_FORMATS` — 6 groups of 1-2 digits with ':' or '-', 3 groups of
+    1-4 digits with ':', '-' or '.', 2 groups of 5-6 digits, 12 or 11 bare digits, any letter
+    case — denote the big-endian value of the tokens read as words of 48/groups bits, with
+    implicit and with explicit version -/
+theorem spellings48 (f : MacFmt) (hf : f ∈ macFormats) (c : Char) (toks : List (List Char))
+    (h : Spelling c toks) (hsep : f.sep = [c] ∨ (f.sep = [] ∧ toks.length = 1)) (hg : f.groups = toks.length)
+    (hl : ∀ t ∈ toks, f.lo ≤ t.length ∧ t.length ≤ f.hi) :
+    ∃ p, pad48 f.groups = some p ∧ 4 * p * f.groups = 48 ∧
+      strToInt48 ([c].intercalate toks) = .ok (beWordsValue (4 * p) (toks.map tokVal)) ∧
+      ofAny (.str ([c].intercalate toks)) none = .ok (48, beWordsValue (4 * p) (toks.map tokVal)) ∧
+      ofAny (.str ([c].intercalate toks)) (some 48) = .ok (48, beWordsValue (4 * p) (toks.map tokVal)) := by
+  obtain ⟨p, hp, hhi, hp1, hw⟩ := padOk_elim (padOk48 f hf)
+  obtain ⟨hfm, hj⟩ := parse_spelling macFormats mac_fmts_ok f hf c toks h hsep hg hl p hhi hp1
+  have hs : strToInt48 ([c].intercalate toks) = .ok (beWordsValue (4 * p) (toks.map tokVal)) := by
+    rw [strToInt48_eq, hfm]
+    simp only [← hg, hp, hj, beWordsValue]
+  refine ⟨p, hp, hw, hs, ?_, ?_⟩
+  · simp only [ofAny, setImplicitStr, hs]
+  · rw [ofAny_some48]
+    simp only [setExplicit, strToInt, if_true, hs]
+
+/-- **every accepted EUI-64 spelling** (8 groups of 1-2 digits with ':' or '-', 4 groups of 1-4
+    digits with ':', '-' or '.', 16 bare digits) denotes the value of its tokens; with implicit
+    version it is recognised as version 64 because no EUI-48 pattern captures it -/
+theorem spellings64 (f : MacFmt) (hf : f ∈ eui64Formats) (c : Char) (toks : List (List Char))
+    (h : Spelling c toks) (hsep : f.sep = [c] ∨ (f.sep = [] ∧ toks.length = 1)) (hg : f.groups = toks.length)
+    (hl : ∀ t ∈ toks, f.lo ≤ t.length ∧ t.length ≤ f.hi) :
+    ∃ p, pad64 f.groups = some p ∧ 4 * p * f.groups = 64 ∧
+      strToInt64 ([c].intercalate toks) = .ok (beWordsValue (4 * p) (toks.map tokVal)) ∧
+      strToInt48 ([c].intercalate toks) = .error .addrFormat ∧
+      ofAny (.str ([c].intercalate toks)) none = .ok (64, beWordsValue (4 * p) (toks.map tokVal)) ∧
+      ofAny (.str ([c].intercalate toks)) (some 64) = .ok (64, beWordsValue (4 * p) (toks.map tokVal)) := by
+  obtain ⟨p, hp, hhi, hp1, hw⟩ := padOk_elim (padOk64 f hf)
+  obtain ⟨hfm, hj⟩ := parse_spelling eui64Formats eui64_fmts_ok f hf c toks h hsep hg hl p hhi hp1
+  have hs : strToInt64 ([c].intercalate toks) = .ok (beWordsValue (4 * p) (toks.map tokVal)) := by
+    rw [strToInt64_eq, hfm]
+    simp only [← hg, hp, hj, beWordsValue]
+  have hno : strToInt48 ([c].intercalate toks) = .error .addrFormat := by
+    have := parse_none macFormats mac_fmts_ok c toks h (by
+      intro g hgm ⟨hgg, hgl⟩
+      match toks, h.ne with
+      | t :: r, _ =>
+        have a := hgl t (by simp)
+        have b := hl t (by simp)
+        rcases cross g hgm f hf (by rw [hgg, hg]) with x | x <;> omega)
+    rw [strToInt48_eq, this]
+  refine ⟨p, hp, hw, hs, hno, ?_, ?_⟩
+  · simp only [ofAny, setImplicitStr, hno, hs]
+  · rw [ofAny_some64]
+    simp only [setExplicit, strToInt, show ¬ (64 = 48) by decide, if_false, hs]
+
+example : strToInt48 "00-1B-77-49-54-FD".toList = .ok 0x001b774954fd := by rfl
+example : strToInt48 "1b.7749.54fd".toList = .ok 0x001b774954fd := by rfl
+example : strToInt48 "001b77:4954fd".toList = .ok 0x001b774954fd := by rfl
+example : strToInt48 "001B774954FD".toList = .ok 0x001b774954fd := by rfl
+example : ofAny (.str "0000000041000000".toList) none = .ok (64, 0x41000000) := by rfl
+example : ofAny (.str "00-1B-77-49-54-FD".toList) (some 64) = .error .addrFormat := by rfl
+
+/-- **round trip, general form** (covers user subclasses): a dialect whose attributes fit a row
+    of `RE_MAC_FORMATS` prints every EUI-48 value as a text that parses back to (48, value),
+    with implicit and with explicit version -/
+theorem roundtrip_fit48 (d : Dialect) (f : MacFmt) (p : Nat) (hf : f ∈ macFormats)
+    (hfit : fits d f p 48 = true) (v : Nat) (hv : v < 2 ^ 48) :
+    ∃ s, intToStr d v = .ok s ∧ strToInt48 s = .ok v ∧ ofAny (.str s) none = .ok (48, v) ∧
+      ofAny (.str s) (some 48) = .ok (48, v) := by
+  obtain ⟨h1, h2, h3, h4, h5, h6, h7, h8⟩ := print_spelling d f p 48 hfit v hv
+  obtain ⟨p', hp', _, a, b, c⟩ := spellings48 f hf _ _ h2 h3 h4 h5
+  obtain ⟨q, hq, hqhi, hq1, hqw⟩ := padOk_elim (padOk48 f hf)
+  -- the decode width chosen by the group count is the dialect's word width
+  have hpp : p' = p := by
+    have e1 : p' = q := by rw [hq] at hp'; exact (Option.some.inj hp').symm
+    simp only [fits, Bool.and_eq_true, beq_iff_eq, decide_eq_true_eq] at hfit
+    obtain ⟨⟨⟨⟨⟨⟨⟨⟨⟨g1, g2⟩, g3⟩, g4⟩, g5⟩, g6⟩, g7⟩, g8⟩, g9⟩, g10⟩ := hfit
+    have : 4 * q * f.groups = 4 * p * f.groups := by rw [hqw, g2, ← g5, g8]
+    have hgpos : 0 < f.groups := by rw [g2]; omega
+    have := Nat.eq_of_mul_eq_mul_right hgpos this
+    omega
+  subst hpp
+  simp only [beWordsValue, h8] at a b c
+  exact ⟨_, h1, a, b, c⟩
+
+/-- the EUI-64 counterpart -/
+theorem roundtrip_fit64 (d : Dialect) (f : MacFmt) (p : Nat) (hf : f ∈ eui64Formats)
+    (hfit : fits d f p 64 = true) (v : Nat) (hv : v < 2 ^ 64) :
+    ∃ s, intToStr d v = .ok s ∧ strToInt64 s = .ok v ∧ ofAny (.str s) none = .ok (64, v) ∧
+      ofAny (.str s) (some 64) = .ok (64, v) := by
+  obtain ⟨h1, h2, h3, h4, h5, h6, h7, h8⟩ := print_spelling d f p 64 hfit v hv
+  obtain ⟨p', hp', _, a, _, b, c⟩ := spellings64 f hf _ _ h2 h3 h4 h5
+  obtain ⟨q, hq, hqhi, hq1, hqw⟩ := padOk_elim (padOk64 f hf)
+  have hpp : p' = p := by
+    have e1 : p' = q := by rw [hq] at hp'; exact (Option.some.inj hp').symm
+    simp only [fits, Bool.and_eq_true, beq_iff_eq, decide_eq_true_eq] at hfit
+    obtain ⟨⟨⟨⟨⟨⟨⟨⟨⟨g1, g2⟩, g3⟩, g4⟩, g5⟩, g6⟩, g7⟩, g8⟩, g9⟩, g10⟩ := hfit
+    have : 4 * q * f.groups = 4 * p * f.groups := by rw [hqw, g2, ← g5, g8]
+    have hgpos : 0 < f.groups := by rw [g2]; omega
+    have := Nat.eq_of_mul_eq_mul_right hgpos this
+    omega
+  subst hpp
+  simp only [beWordsValue, h8] at a b c
+  exact ⟨_, h1, a, b, c⟩
+
+private def fitsSome (fmts : List MacFmt) (padOf : Nat → Option Nat) (width : Nat) (d : Dialect) : Bool :=
+  fmts.any (fun f => match padOf f.groups with
+    | some p => fits d f p width
+    | none => false)
+
+private theorem builtin48_fit : ∀ d ∈ macDialects, fitsSome macFormats pad48 48 d = true := by decide
+private theorem builtin64_fit : ∀ d ∈ eui64Dialects, fitsSome eui64Formats pad64 64 d = true := by decide
+
+private theorem fitsSome_elim {fmts padOf width d} (h : fitsSome fmts padOf width d = true) :
+    ∃ f ∈ fmts, ∃ p, fits d f p width = true := by
+  unfold fitsSome at h
+  rw [List.any_eq_true] at h
+  obtain ⟨f, hf, hm⟩ := h
+  cases hp : padOf f.groups with
+  | none => rw [hp] at hm; cases hm
+  | some p => rw [hp] at hm; exact ⟨f, hf, p, hm⟩
+
+/-- **round trip for every built-in EUI-48 dialect** (mac_eui48, mac_unix, mac_unix_expanded,
+    mac_cisco, mac_bare, mac_pgsql — as generated from the source): the printed text of every
+    value parses back, with implicit or explicit version, to the same value and version 48 -/
+theorem roundtrip48 (d : Dialect) (hd : d ∈ macDialects) (v : Nat) (hv : v < 2 ^ 48) :
+    ∃ s, intToStr d v = .ok s ∧ ofAny (.str s) none = .ok (48, v) ∧ ofAny (.str s) (some 48) = .ok (48, v) := by
+  obtain ⟨f, hf, p, hfit⟩ := fitsSome_elim (builtin48_fit d hd)
+  obtain ⟨s, a, _, b, c⟩ := roundtrip_fit48 d f p hf hfit v hv
+  exact ⟨s, a, b, c⟩
+
+/-- **round trip for every built-in EUI-64 dialect** (eui64_base, eui64_unix,
+    eui64_unix_expanded, eui64_cisco, eui64_bare) -/
+theorem roundtrip64 (d : Dialect) (hd : d ∈ eui64Dialects) (v : Nat) (hv : v < 2 ^ 64) :
+    ∃ s, intToStr d v = .ok s ∧ ofAny (.str s) none = .ok (64, v) ∧ ofAny (.str s) (some 64) = .ok (64, v) := by
+  obtain ⟨f, hf, p, hfit⟩ := fitsSome_elim (builtin64_fit d hd)
+  obtain ⟨s, a, _, b, c⟩ := roundtrip_fit64 d f p hf hfit v hv
+  exact ⟨s, a, b, c⟩
+
+example : intToStr ⟨"mac_pgsql", 24, 2, [':'], 6, false⟩ 0x001b774954fd = .ok "001b77:4954fd".toList := by rfl
+example : (⟨"mac_pgsql", 24, 2, [':'], 6, false⟩ : Dialect) ∈ macDialects := by decide
+
+/-- integers: implicit version 48 up to 2^48-1, 64 up to 2^64-1, otherwise rejected; explicit
+    version: exactly the range of that version -/
+theorem ofAny_int (n : Nat) :
+    (n < 2 ^ 48 → ofAny (.int n) none = .ok (48, n)) ∧
+    (2 ^ 48 ≤ n → n < 2 ^ 64 → ofAny (.int n) none = .ok (64, n)) ∧
+    (2 ^ 64 ≤ n → ofAny (.int n) none = .error .type_) ∧
+    (n < 2 ^ 48 → ofAny (.int n) (some 48) = .ok (48, n)) ∧
+    (2 ^ 48 ≤ n → ofAny (.int n) (some 48) = .error .addrFormat) ∧
+    (n < 2 ^ 64 → ofAny (.int n) (some 64) = .ok (64, n)) ∧
+    (2 ^ 64 ≤ n → ofAny (.int n) (some 64) = .error .addrFormat) := by
+  have m48 : Eui.maxInt 48 = 2 ^ 48 - 1 := by decide
+  have m64 : Eui.maxInt 64 = 2 ^ 64 - 1 := by decide
+  have key : ofAny (.int n) none =
+      if (0 : Int) ≤ (n : Int) ∧ (n : Int) ≤ 0xffffffffffff then setExplicit 48 (.int n)
+      else if (0xffffffffffff : Int) < (n : Int) ∧ (n : Int) ≤ 0xffffffffffffffff then setExplicit 64 (.int n)
+      else .error .type_ := rfl
+  refine ⟨?_, ?_, ?_, ?_, ?_, ?_, ?_⟩
+  · intro h
+    rw [key, if_pos (by omega), setExplicit_int, m48, if_pos (by omega)]
+  · intro h1 h2
+    rw [key, if_neg (by omega), if_pos (by omega), setExplicit_int, m64, if_pos (by omega)]
+  · intro h
+    rw [key, if_neg (by omega), if_neg (by omega)]
+  · intro h
+    rw [ofAny_some48, setExplicit_int, m48, if_pos (by omega)]
+  · intro h
+    rw [ofAny_some48, setExplicit_int, m48, if_neg (by omega)]
+  · intro h
+    rw [ofAny_some64, setExplicit_int, m64, if_pos (by omega)]
+  · intro h
+    rw [ofAny_some64, setExplicit_int, m64, if_neg (by omega)]
 
 end NV.C08
